@@ -31,6 +31,7 @@ import (
 	"fmt"
 	lru "github.com/hashicorp/golang-lru"
 	"sort"
+	"sync"
 )
 
 const (
@@ -108,6 +109,11 @@ type TxPool struct {
 
 	executed db.Database
 	batch    db.Batch
+
+	// lock makes "is it known? then admit" (add) atomic with respect to the block
+	// bookkeeping (MarkExecuted / UnMarkExecuted), which moves transactions between
+	// the pending container and the executed records
+	lock sync.Mutex
 }
 
 var (
@@ -184,6 +190,9 @@ func (pool *TxPool) AddTransaction(tx *types.Transaction) (bool, error) {
 }
 
 func (pool *TxPool) MarkExecuted(header *types.BlockHeader, receipts types.Receipts, txs []*types.Transaction, evictedTxs []common.Hash) {
+	pool.lock.Lock()
+	defer pool.lock.Unlock()
+
 	txHashList := make([]interface{}, 0)
 
 	if receipts != nil && len(receipts) != 0 {
@@ -254,9 +263,11 @@ func (pool *TxPool) UnMarkExecuted(block *types.Block) {
 		}
 	}
 
+	pool.lock.Lock()
+	defer pool.lock.Unlock()
 	for _, tx := range txs {
 		pool.executed.Delete(tx.Hash.Bytes())
-		pool.add(tx)
+		pool.addLocked(tx)
 	}
 }
 
@@ -402,6 +413,12 @@ func (pool *TxPool) ProcessFee(tx types.Transaction, accountDB *account.AccountD
 }
 
 func (pool *TxPool) add(tx *types.Transaction) (bool, error) {
+	pool.lock.Lock()
+	defer pool.lock.Unlock()
+	return pool.addLocked(tx)
+}
+
+func (pool *TxPool) addLocked(tx *types.Transaction) (bool, error) {
 	if tx == nil {
 		return false, ErrNil
 	}
